@@ -3,13 +3,17 @@
 package upload
 
 import (
+	"encoding/json"
 	"fmt"
 	"os"
 	"path/filepath"
 	"testing"
 	"time"
 
+	"golang.org/x/telemetry/internal/configstore"
 	"golang.org/x/telemetry/internal/configtest"
+	"golang.org/x/telemetry/internal/proxy"
+	"golang.org/x/telemetry/internal/telemetry"
 	"golang.org/x/telemetry/internal/verifrt"
 )
 
@@ -43,7 +47,7 @@ func TestVerifC01Public(t *testing.T) {
 	for _, s := range agg.Inconclusive {
 		c05r.Inconc(s)
 	}
-	c.c01.Require("request-checked")
+	c.c01.Require("request-checked", "second-run-after-new-configuration")
 	c.c01.Write()
 	c.c07.Require("stray-json-in-local")
 	c.c07.Write()
@@ -87,7 +91,30 @@ func c01PublicBatch(t *testing.T, batch, nb int, cur *verifrt.Current) {
 			s.Xs = s.Xs[:1]
 			s.Grow = map[int]int{}
 			s.Cfg.SampleRate = 0
-			env := configtest.LocalProxyEnv(t, toTelemetryConfig(s.Cfg), "v1.2.3")
+			var env []string
+			pdir := ""
+			if i%2 == 0 {
+				// (a proxy of the harness's own, so that a second configuration can be
+				// published into it between two runs of this process)
+				pdir, _ = os.MkdirTemp(base, "proxy")
+				defer func() {
+					filepath.Walk(pdir, func(p string, info os.FileInfo, err error) error {
+						if err == nil && info.IsDir() {
+							os.Chmod(p, 0o777)
+						}
+						return nil
+					})
+					os.RemoveAll(pdir)
+				}()
+				var err error
+				env, err = c01Publish(pdir, toTelemetryConfig(s.Cfg), "v1.2.3")
+				if err != nil {
+					c.c01.Inconc("cannot write the proxy: " + err.Error())
+					return
+				}
+			} else {
+				env = configtest.LocalProxyEnv(t, toTelemetryConfig(s.Cfg), "v1.2.3")
+			}
 			td := newTdir(base)
 			defer os.RemoveAll(td.root)
 			srv := newFakeSrv()
@@ -155,6 +182,77 @@ func c01PublicBatch(t *testing.T, batch, nb int, cur *verifrt.Current) {
 			if i < 2 {
 				c.c01.Sample(map[string]any{"case": i, "requests": len(srv.requests()), "files": len(s.Files)})
 			}
+			if pdir == "" {
+				return
+			}
+			// a second run of this process, on another directory, after the next
+			// configuration has been published: it filters with the configuration
+			// fetched for that run
+			rnd2 := verifrt.NewRand(verifrt.Seed(), fmt.Sprintf("c01pub2/%d", i))
+			s2 := genSeqScenario(rnd2, 400000+i)
+			s2.Starts = s2.Starts[:1]
+			s2.Mode = []string{"on 2010-01-01"}
+			s2.Xs = s2.Xs[:1]
+			s2.Grow = map[int]int{}
+			s2.Cfg.SampleRate = 0
+			if _, err := c01Publish(pdir, toTelemetryConfig(s2.Cfg), "v1.2.4"); err != nil {
+				c.c01.Inconc("cannot publish the second configuration: " + err.Error())
+				return
+			}
+			td2 := newTdir(base)
+			defer os.RemoveAll(td2.root)
+			srv2 := newFakeSrv()
+			defer srv2.close()
+			files2 := map[string]*ufile{}
+			for _, f := range s2.Files {
+				td2.put(f, rnd2)
+				files2[f.FileName] = f
+			}
+			m2 := s2.Mode[0]
+			td2.setMode(&m2)
+			unforceX()
+			if s2.Xs[0] >= 0 {
+				forceX(s2.Xs[0])
+			}
+			before2 := snapshot(td2.root)
+			verifrt.SetTickBudget(50_000_000)
+			pv2, stack2 := guarded(func() {
+				err = Run(RunConfig{TelemetryDir: td2.root, UploadURL: srv2.srv.URL, Env: env, StartTime: s2.Starts[0]})
+			})
+			verifrt.SetTickBudget(0)
+			if pv2 != nil || err != nil {
+				c.c01.Inconc(fmt.Sprintf("second upload.Run of the process failed: %v %v %.300s", pv2, err, stack2))
+				return
+			}
+			c.c01.Eval()
+			c.c01.Hit("second-run-after-new-configuration")
+			replay2 := func(extra map[string]any) map[string]any {
+				mm := verifrt.CaseReplay(i, map[string]any{"run": "second of the process, configuration v1.2.4", "start": fmt.Sprint(s2.Starts[0]), "x": s2.Xs[0]})
+				for k, v := range extra {
+					mm[k] = v
+				}
+				return mm
+			}
+			mode2, asof2 := parseModeRef(m2, false)
+			judgeSeqRun(c, s2, td2, files2, before2, snapshot(td2.root), srv2.requests(), mode2, asof2, s2.Starts[0], 0, replay2)
 		})
 	}
+}
+
+// c01Publish adds one version of the configuration module to a file-based
+// module proxy below dir and returns the go environment for fetching from it.
+func c01Publish(dir string, cfg *telemetry.UploadConfig, version string) ([]string, error) {
+	enc, err := json.Marshal(cfg)
+	if err != nil {
+		return nil, err
+	}
+	dp := fmt.Sprintf("%v@%v/", configstore.ModulePath, version)
+	uri, err := proxy.WriteProxy(filepath.Join(dir, "proxy"), map[string][]byte{
+		dp + "go.mod":      []byte("module " + configstore.ModulePath + "\n\ngo 1.20\n"),
+		dp + "config.json": enc,
+	})
+	if err != nil {
+		return nil, err
+	}
+	return []string{"GOPROXY=" + uri, "GONOSUMDB=*", "GOMODCACHE=" + filepath.Join(dir, "modcache")}, nil
 }
